@@ -18,7 +18,7 @@ RULE = (
     "scalar independently typed as Python int/float or NumPy int32/int64/float32/float64 (integer-valued where typed integer), a "
     "grid (resolution, extents), a receptor position and wd in {None, multiples of 90, arbitrary}. kind=fp: every cell equals the "
     "paper's closed form D_y * f^y * res^2 written with scipy.special at independently rotated coordinates; >= 0; exactly 0 in "
-    "downwind cells; mirror-symmetric about the wind axis (wd None). kind=mass: on plume-resolving grids sum(phi) -> gammaincc(mu, "
+    "downwind cells; mirror-symmetric about the wind axis (wd None); the same grid is then evaluated again for a receptor moved by whole cells. kind=mass: on plume-resolving grids sum(phi) -> gammaincc(mu, "
     "xi/X) (error <= 1e-4 and shrinking at res/2). kind=rot: on a receptor-centred square grid wd = 90 j gives np.rot90(field(wd=0), "
     "-j). kind=z0: estimateZ0 without smoothing inverts the diabatic log law; with smoothing it equals a brute-force circular-window "
     "median and is invariant under a common integer-degree rotation of directions on a 1/8-degree lattice. Non-trivial = footprint "
@@ -95,6 +95,7 @@ def _case(draw):
         case["mxy"] = [draw(gen.fl(-30.0, 30.0)), draw(gen.fl(-30.0, 30.0))] if draw(st.booleans()) else [0.0, 0.0]
         case["wd"] = draw(st.one_of(st.none(), st.sampled_from([0.0, 90.0, 180.0, 270.0, 360.0]), gen.fl(0.0, 360.0)))
         case["wd_int"] = draw(st.booleans())
+        case["shift2"] = [draw(st.integers(-3, 3)), draw(st.integers(-3, 3))]  # second receptor on the same grid
     elif kind == "mass":
         case["xup_factor"] = draw(gen.fl(3.0, 12.0))
     else:
@@ -242,6 +243,27 @@ def _check_fp(case):
     if mref > 0 and not float(ff.sum()) > 0:
         out.bad(f"closed form has mass {ref.sum():.3e} on this grid but the returned footprint sums to {ff.sum()!r}")
     out.detail = {"max_rel": float(np.max(np.abs(ff - ref)) / mref) if mref > 0 else 0.0}
+
+    # the same grid again with the receptor moved by whole cells (a tower survey on one raster): every call must be
+    # the closed form about ITS receptor, whatever was computed on this grid before
+    sx, sy = case.get("shift2", [0, 0])
+    if (sx, sy) != (0, 0) and not out.fail:
+        mx2, my2 = mx + sx * res, my + sy * res
+        gx2, gy2, ff2 = _call(p, dom, res, [mx2, my2], wd)
+        E2, N2 = gx2 - mx2, gy2 - my2
+        if wd is None:
+            x2, y2 = E2, N2
+        else:
+            x2 = E2 * math.sin(th) + N2 * math.cos(th)
+            y2 = N2 * math.sin(th) - E2 * math.cos(th)
+        ref2 = km_field(par, sv, x2, y2, res)
+        m2 = float(ref2.max()) if ref2.size else 0.0
+        ok2 = np.abs(ff2 - ref2) <= (2e-4 * m2 if f32 else 1e-9 * np.abs(ref2) + 1e-12 * m2) + 1e-300
+        if not np.all(ok2):
+            j, i = np.argwhere(~ok2)[0]
+            out.bad(f"second receptor {(mx2, my2)} on the same grid: cell ({j},{i}) footprint {ff2[j, i]!r}, closed form {ref2[j, i]!r} "
+                    f"(first receptor was {(mx, my)}; wd {wd!r})")
+        out.label("second-receptor-checked")
     return out
 
 
